@@ -12,7 +12,11 @@ From BB Require Import BN Brute SpaceFacts TrapFacts PercolateFacts AttractorFac
   Strict PetriNet Control Meta FilterFacts PetriNetFacts TrappistFacts DiagramStruct DiagramSem1 DiagramCache
   DiagramDepth DiagramComplete Termination ControlFacts MetaFacts Candidates StrictFacts MinExpandFacts CandidatesFacts SymbolicTest SymbolicTestFacts Signed ReductionFacts ControlFacts2 Main Blocks BlocksFacts ObsFacts OwnerFacts CandidatesTerm
   PartialOwner BlockMath BlockComplete ASeeds ASeedsFacts LogChecks SkipRule SkipRuleFacts Names NamesFacts Perm PermFacts SCC SCCFacts SCCStruct ControlFacts3 SCCTerm FilterSym Main2 StrategyFacts ControlFacts4 SkipRuleFacts2 SCCComplete SCCAttr BlockComplete2 ControlFacts5 Iso SkipSem ControlFacts6.
-From BB Require Import PyLibCore PySrcCore PySrcCoreFacts PyLibCore2 PySrcCore2 PySrcCore2Facts PySrcInitFacts PyLib PyLibSd PyLibCore PyLibSd2 PyLibScc PySrcSdBase PySrcSdScc PySrcSdSccFacts.
+From BB Require Import PyLibCore PySrcCore PySrcCoreFacts PyLibCore2 PySrcCore2 PySrcCore2Facts PySrcInitFacts PyLib PyLibSd PyLibCore PyLibSd2 PyLibScc PySrcSdBase PySrcSdScc PySrcSdSccFacts PyLib PyLibSd PyLibCore PyLibSd2 PyLibScc PySrcSdBase PySrcSdScc PySrcSdSccFacts Control PyLibControl PySrcSdSccMain PySrcSdSccMainFacts PyLibBlocks PySrcSdBlocks PySrcSdBlocksFacts PySrcApi PySrcEndToEndScc PySrcEndToEndBlocks.
+
+(* C14 for the SOURCE TEXT of the default strategy: whatever the generated expand_block returns, every cache tag of the diagram it leaves is sound (the source fast-forward writes its caches against the node's new successor list) *)
+Theorem C14_source_text_expand_block_cache_tags : forall (fuel : nat) (N : net) (cfg : config) (d : sd) (tape : list bool) (maa : bool) (sz : option nat) (opt exact : bool), SWF N d -> NoStubEdges d -> CacheOK d -> CacheOK (flow_sd (py_api_expand_block fuel N cfg d tape maa sz opt exact)).
+Proof. exact py_api_expand_block_CacheOK. Qed.
 
 (* translator tie: the function GENERATED from the current text of expand_source_SCCs.attach_scc_subdiagram (PySrcSdScc.v: node copying, cache discarding for stubs and skip nodes, candidate queries, edge copying) does exactly what the model's SCC.attach_scc does in the situation in which expand_source_SCCs calls it (SCCTerm.senv / SI / good_at) *)
 Theorem C14_source_attach_scc_subdiagram : forall (N : net) (cfg : config) (d : sd) (B : list nat) (sub : sd) (attach_at : nat) (check_maa : bool) (tape : tape_t) (sp : space) (rest : list (list nat)), attach_pre N B sub d attach_at -> senv N sp B rest sub -> SI N d -> good_at sp (B :: rest) d attach_at -> let '(d', r, mins, tape') := attach_scc N check_maa B sub d attach_at tape in py_attach_scc_subdiagram N cfg d B tape sub attach_at check_maa = match r with | RUnit => SRet d' (mins, tape') | _ => SRaise d' r end.
@@ -66,6 +70,7 @@ Proof. exact expand_block_CacheOK. Qed.
 Theorem C14_aseeds_expansion_keeps_caches_valid : forall (fuel : nat) (N : net) (cfg : config) (d : sd) (sz : option nat) (min_tape : list space) (tape : list (list nat)), 1 <= max_motifs cfg -> SWF N d -> NoStubEdges d -> CacheOK d -> CacheOK (fst (expand_aseeds fuel N cfg d sz min_tape tape)).
 Proof. exact expand_aseeds_CacheOK. Qed.
 
+Print Assumptions C14_source_text_expand_block_cache_tags.
 Print Assumptions C14_source_attach_scc_subdiagram.
 Print Assumptions C14_source_attach_scc_subdiagram_no_assert.
 Print Assumptions C14_source_attach_scc_subdiagram_assert_case.
